@@ -48,7 +48,7 @@ def observe(d, order, lang="yaql"):
                 wc = {"k": "unknown", "v": str(w)[:20], "n": 0}
             rr = {"on": True, "count": r.get("count") if isinstance(r.get("count"), int) else -9,
                   "when": wc, "delay": r.get("delay") if isinstance(r.get("delay"), int) else -1}
-        nodes.append({"id": nid, "barrier": 0 if b is None else (-1 if b == "*" else b), "retry": rr,
+        nodes.append({"id": nid, "barrier": -9 if b is None else (-1 if b == "*" else b), "retry": rr,
                       "splits": list(attrs.get("splits", []))})
     edges = []
     for s, t, k, a in g._graph.edges(data=True, keys=True):
